@@ -265,6 +265,23 @@ class GenericQuantity(object):
     def __rpow__(self, other):
         raise TypeError('Invalid operation: exponentiation by quantity.')
 
+    # In-place operators: without these an ArrayQuantity falls through to
+    # numpy's, which know nothing about units (a += seconds was accepted).
+    def __iadd__(self, other):
+        return self.__add__(other)
+
+    def __isub__(self, other):
+        return self.__sub__(other)
+
+    def __imul__(self, other):
+        return self.__mul__(other)
+
+    def __itruediv__(self, other):
+        return self.__truediv__(other)
+
+    def __ipow__(self, other):
+        return self.__pow__(other)
+
     def __neg__(self):
         (self_value, self_units) = self._unpack_qty(self)
         return self._build(-self_value, self_units)
